@@ -1,0 +1,31 @@
+//go:build verif
+// +build verif
+
+package rsec16
+
+import "github.com/akalin/gopar/gf2p16"
+
+// This file is compiled only with the "verif" build tag.
+
+// VerifStepHook, if non-nil, is called by every worker immediately
+// before each kernel call of applyMatrixSlice with (output row, input
+// index, dataStart, dataEnd), and with row == -1 when the worker has
+// finished its range. A hook that blocks acts as a scheduler gate. It
+// must be set before any coding call and not changed during one.
+var VerifStepHook func(row, input, dataStart, dataEnd int)
+
+func verifStep(row, input, dataStart, dataEnd int) {
+	if h := VerifStepHook; h != nil {
+		h(row, input, dataStart, dataEnd)
+	}
+}
+
+// VerifApplyMatrixParallelData exposes applyMatrixParallelData.
+func VerifApplyMatrixParallelData(m gf2p16.Matrix, in, out [][]byte, numGoroutines int) {
+	applyMatrixParallelData(m, in, out, numGoroutines)
+}
+
+// VerifCalculateParallelParams exposes calculateParallelParams.
+func VerifCalculateParallelParams(totalLength, numGoroutines, minPerGoroutineLength, perGoroutineLengthDivisor int) (int, int) {
+	return calculateParallelParams(totalLength, numGoroutines, minPerGoroutineLength, perGoroutineLengthDivisor)
+}
